@@ -110,6 +110,10 @@ SPECS["C12"] = dict(
         "Woodpile.Props.C12.oob_none",
         "Woodpile.Props.C12.std_search_ok",
         "Woodpile.Props.C12.find_sound",
+        # track misc2 (claim-audit, C12 table)
+        "Woodpile.Props.C12.find_tag_sound",
+        "Woodpile.Props.C12.empty_message",
+        "Woodpile.Props.C12.empty_message_trailing_bytes",
     ],
     families=[dict(name="tlvview", quick=3000, thorough=1500000)],
     technique="Lean 4 proof (all byte strings; checked slicing so that panic-freedom is a theorem) + model/implementation correspondence",
@@ -146,6 +150,16 @@ SPECS["C11"] = dict(
         "Woodpile.Props.C11.view_find",
         "Woodpile.Props.C11.reject_iff",
         "Woodpile.Props.C11.sorted_reject_iff",
+        # track misc2 (claim-audit gap 12): the sink-call level
+        "Woodpile.Props.C11.encode_pieces_flat",
+        "Woodpile.Props.C11.encode_calls_layout",
+        "Woodpile.Props.C11.calls_len_eq",
+        "Woodpile.Props.C11.nested_lawful_every_depth",
+        "Woodpile.Props.C11.dval_lawful",
+        "Woodpile.Props.C11.view_find_tag",
+        "Woodpile.Props.C11.reject_error_kind",
+        "Woodpile.Props.C11S.sink_agnostic_any_pieces",
+        "Woodpile.Props.C11S.sink_agnostic_driver",
     ],
     families=[dict(name="tlv", quick=3000, thorough=300000)],
     technique="Lean 4 proof (all pair lists, generic lawful value type, saturating usize/u32 arithmetic) + model/implementation correspondence",
@@ -350,6 +364,9 @@ SPECS["C15"] = dict(
         "Woodpile.Props.C15.zdeque_step_is_length_image",
         "Woodpile.Props.C15.zdeque_run_is_length_image",
         "Woodpile.Props.C15.zdeque_run_spec",
+        # track misc2 (claim-audit, C15 table): the checked Deref slice the drivers print
+        "Woodpile.Props.C15.deref_is_view",
+        "Woodpile.Props.C15.run_deref_refines_list",
     ],
     families=[dict(name="sdeque", quick=3000, thorough=200000)],
     technique="Lean 4 proof (representation invariant = check_rep, per-operation refinement of a List deque, induction over "
@@ -402,6 +419,16 @@ SPECS["C16"] = dict(
         "Woodpile.Props.C16.whole_item_lawful_of_distinct_keys",
         "Woodpile.Props.C16.whole_item_needs_distinct_keys",
         "Woodpile.Props.C16.pair_run_refines",
+        # track misc2 (claim-audit gap 17): persistence of removals, sortedness from any state, whole-item run level
+        "Woodpile.Props.C16.reference_sorted_from",
+        "Woodpile.Props.C16.reachable_sorted",
+        "Woodpile.Props.C16.present_key_found_impl",
+        "Woodpile.Props.C16.gone_stays_gone",
+        "Woodpile.Props.C16.removed_or_popped_vanishes",
+        "Woodpile.Props.C16.gone_stays_gone_increasing",
+        "Woodpile.Props.C16.gone_stays_gone_impl",
+        "Woodpile.Props.C16.whole_run_refines",
+        "Woodpile.Props.C16.whole_run_refines_of_keyed_values",
     ],
     families=[dict(name="sorted", quick=4000, thorough=200000)],
     technique="Lean 4 proof (ghost-list representation invariant, correctness of the modelled std binary search on sorted "
@@ -632,6 +659,10 @@ SPECS["C14"] = dict(
         "Woodpile.Props.C14.now_same_rule",
         "Woodpile.Props.C14.wrap_counterexample",
         "Woodpile.Props.C14.trunc_counterexample",
+        # track misc2 (claim-audit gap 20): raffle tags and the calendar range re-extracted from the resolved crates
+        "Woodpile.Props.C14.raffle_consts",
+        "Woodpile.Props.C14.raffle_names",
+        "Woodpile.Props.C14.local_range_consts",
     ],
     families=[dict(name="vtime", quick=3000, thorough=400000)],
     technique=("Lean 4 proof (integer/UInt64 arithmetic over all local times x 2^64 base times x 2^64 vouchers; ring identities "
@@ -939,3 +970,58 @@ SPECS["C19"]["level_text"] += (' Track abt2: the cell of the model is no longer 
 # moves the NFS base time backwards by 1 ms only for a file exactly 1 ms older than the base, which the real-file family `nfs`
 # almost never presents; found as a missed mutation by track abt2).
 SPECS["C19"]["families"] += [dict(name="abt", quick=600, thorough=20000)]
+
+# ---------------------------------------------------------------------------------------------
+# track misc2 (claim-audit gaps 12, 17, 20 and the C11/C12/C14/C15/C16 tables)
+SPECS["C11"]["level_text"] += (
+    " Sink-call level (track misc2): Wrapper.encodePieces is MessageWrapper::encode as the SEQUENCE OF ZeroCopySink CALLS it makes "
+    "(append_copy of every header word; per value append_borrow for Cow::Borrowed, append_copy for Cow::Owned / &[u8] / &str, the nested "
+    "call sequence for a message; a value whose to_rough_tlv panics makes encode panic). Proved: the calls concatenate to the byte-level "
+    "encoding of the other theorems (encode_pieces_flat), their exact shape for every accepted list (encode_calls_layout), their total = "
+    "rough_tlv_len (calls_len_eq); C11S.sink_agnostic is now about those calls: the HCOBS encoder model fed with exactly them by exactly "
+    "those methods ends holding Spec.encode prod (layout), nothing pending, and the batch and incremental decoders (any segmentation, any "
+    "method) give the layout back, which MessageView accepts. The lawfulness hypothesis of the byte-level theorems is discharged for "
+    "nested messages of every depth (nested_lawful_every_depth, a depth-indexed value type) and for every value the tlv family's state "
+    "machine can build (dval_lawful: that state machine, TlvSt.msg, lives in the model and is what the driver executes; its `panic` "
+    "answer to `enc` is proved dead). The error variant of every rejection is characterised (reject_error_kind), find_tag on emitted "
+    "bytes is sound and complete (view_find_tag). Correspondence: the harness wraps both real sinks in a pass-through recorder; `calls` "
+    "lines (method + length of every call, in order) and, for the hcobs::Encoder sink, the `wire` bytes after finish are compared with "
+    "the model's encodePieces and Enc.output prod of them; the oracle checks at the sink interface that the bytes handed over call by "
+    "call are the reference layout and total rough_tlv_len, that borrowed slices lie inside caller-owned buffers, and that the HCOBS "
+    "sink's output equals the one-call HCOBS encoding of the layout and contains no stuff sequence.")
+SPECS["C11"]["level_note"] += (
+    " The mapping from the harness's Rust value types to sink methods (Cow::Borrowed -> append_borrow, &[u8] -> append_copy, ...) is in "
+    "the driver's parser (methodOf) and is tied by the `calls` lines. A refactor that changes the call pattern without changing the "
+    "bytes (e.g. copying a borrowed Cow) breaks this tie and is reported as a model disagreement without a failing input.")
+SPECS["C12"]["level_text"] += (
+    " Track misc2: find_tag is sound and complete for any acceptable search and find = get_value(find_tag) (find_tag_sound); the "
+    "N = 0 case that the tiling clause has to exclude is stated on its own (empty_message: nothing is iterated, indexed or found; "
+    "empty_message_trailing_bytes: such a message with trailing bytes is accepted). The enumerated cases include pair counts 255, 256, "
+    "257 (300 in thorough): well-formed, last offset one past the payload, one byte cut off.")
+SPECS["C14"]["level_text"] += (
+    " Track misc2: WANTED_SUM / CHECKING_TAG / VOUCHING_TAG are re-read on every run from the raffle crate vouched_time resolves to "
+    "(`cargo metadata --offline --locked`, fallback Cargo.lock + registry source tree): the ASCII names inside named_u64(\"...\") and "
+    "the values; raffle_consts ties the model's literals to both (namedU64 of the extracted names = extracted value = model literal) "
+    "and records that check / vouch are textually the transcribed expressions; raffle_names pins the names. The calendar bounds "
+    "minLocalNs / maxLocalNs are tied to MIN_YEAR / MAX_YEAR re-read from the resolved time crate (local_range_consts, days-from-civil).")
+SPECS["C14"]["trusted_base"] = [t for t in SPECS["C14"]["trusted_base"] if not t.startswith("raffle crate")] + [
+    "raffle crate: check.rs / vouch.rs are re-modelled; constants, names and the textual shape of the two expressions are re-extracted "
+    "from the resolved crate source on every run, the arithmetic is compared numerically by the vtime family"]
+SPECS["C15"]["level_text"] += (
+    " Track misc2: the checked Deref slice the drivers print (&container[consumed..], a panic if out of range) is proved to be the "
+    "total `view` of the other theorems under the invariant (deref_is_view), and equal to the reference deque's contents after every "
+    "operation sequence (run_deref_refines_list).")
+SPECS["C16"]["level_text"] += (
+    " Track misc2, run level: the reference stays strictly sorted, and every iteration result is ascending, from ANY sorted start "
+    "(reference_sorted_from) and from every state of the real deque's model under the invariant (reachable_sorted). Gone stays gone: "
+    "once any operation makes a present item vanish (remove, either pop, clear), then in every later state of every continuation that "
+    "does not push its key again the key is not found, not iterated and in no result (gone_stays_gone; removed_or_popped_vanishes "
+    "shows remove and the pops are such operations); for histories whose live pushes increase globally - the property's 'increasing "
+    "keys' - no side condition is needed and the reference never hits the specified panic (gone_stays_gone_increasing); the same on "
+    "the model of the real code (gone_stays_gone_impl: find = None, iter free of the key, no result carries it). Whole-item ordering: "
+    "every history passing the decidable check wholeKeysDistinct is refined (whole_run_refines), and histories whose pushed value is a "
+    "function of the key - the family's value = 10*key+1 regime - pass it (whole_run_refines_of_keyed_values).")
+SPECS["C11"]["level_note"] = SPECS["C11"]["level_note"].replace(
+    "The HCOBS sink is checked by the harness oracle only (sink-agnosticism is a C02/C01 matter).",
+    "The HCOBS sink is checked by the oracle, by correspondence (`wire` lines against the encoder model run on the model's calls) and by "
+    "C11S.sink_agnostic (composition with the C01/C02 refinement theorems).")
